@@ -40,7 +40,6 @@ def run(ctx: Ctx) -> None:
                             "E7.pair", ignore={"data", "mode", "value"}, family=FAMILY, only=ORDER_FREE)
         if a and b:
             n_pairs += 1
-    ctx.require(n_pairs >= 11, f"only {n_pairs} ImageBatch methods pair a tensor op with a Grid op (expected >= 11)")
     # Image.* / FlowField.* delegates forward all parameters
     S.delegate_forward(ctx, methods_of(img) + methods_of(f1))
     ctx.floor("E7.delegate-forward", 60)
@@ -51,3 +50,29 @@ def run(ctx: Ctx) -> None:
     ctx.floor("T13.ramp", 6)
     ctx.floor("T13.interp-flag", 20)
     ctx.floor("T13.sample", 12)
+    # (checked last so that semantic findings are reported even when the syntactic pairing pattern is no longer recognised)
+    ctx.require(n_pairs >= 11, f"only {n_pairs} ImageBatch methods pair a tensor op with a Grid op (expected >= 11)")
+
+
+def mutants(prog):
+    from .common import source_sub
+    DI, CI, G = "deepali.data.image", "deepali.core.image", "deepali.core.grid"
+    specs = [
+        ("crop: grid pads", DI, "ImageBatch.crop", "grid.crop(margin=margin, num=num)", "grid.pad(margin=margin, num=num)", "T13."),
+        ("pad: grid margin dropped", DI, "ImageBatch.pad", "grid.pad(margin=margin, num=num)", "grid.pad(num=num)", "T13."),
+        ("center_crop: first grid for all", DI, "ImageBatch.center_crop", "grid.center_crop(size) for grid in self._grid", "self._grid[0].center_crop(size) for grid in self._grid", "T13."),
+        ("center_pad: grid crops", DI, "ImageBatch.center_pad", "grid.center_pad(size)", "grid.center_crop(size)", "T13."),
+        ("narrow: grid axis", DI, "ImageBatch.narrow", "g.narrow(self.ndim - dim - 1, start, length)", "g.narrow(dim - 2, start, length)", "T13."),
+        ("narrow: grid start", DI, "ImageBatch.narrow", "g.narrow(self.ndim - dim - 1, start, length)", "g.narrow(self.ndim - dim - 1, 0, length)", "T13."),
+        ("avg_pool: kernel order", DI, "ImageBatch.avg_pool", "tuple(reversed(kernel_size))", "tuple(kernel_size)", "T13."),
+        ("resize: flag dropped for data", DI, "ImageBatch.resize", "U.grid_resize(self, size, mode=mode, align_corners=align_corners)", "U.grid_resize(self, size, mode=mode)", "T13.interp-flag"),
+        ("resize: flag dropped for grid", DI, "ImageBatch.resize", "grid.resize(size, align_corners=align_corners)", "grid.resize(size)", "T13.interp-flag"),
+        ("downsample: min_size dropped for grid", DI, "ImageBatch.downsample", "grid.downsample(levels, dims=dims, min_size=min_size, align_corners=align_corners)", "grid.downsample(levels, dims=dims, align_corners=align_corners)", "E7."),
+        ("roi: grid start", DI, "ImageBatch.region_of_interest", "grid.region_of_interest(start, size)", "grid.region_of_interest(size, start)", "T13."),
+        ("core center_crop offset", CI, "center_crop", "crop = (n // 2 for n in crop)", "crop = ((n + 1) // 2 for n in crop)", "T13."),
+        ("grid center_crop offset", G, "Grid.center_crop", "origin = [(m - n) // 2 for m, n in zip(self.size(), size)]", "origin = [(m - n + 1) // 2 for m, n in zip(self.size(), size)]", "T13."),
+        ("make_instance drops grids", DI, "ImageBatch.crop", "return self._make_instance(data, grid)", "return self._make_instance(data, self._grid)", "T13."),
+    ]
+    for name, mod, fn, old, new, expect in specs:
+        ov = source_sub(prog, mod, fn, old, new)
+        yield (name if ov is not None else name + " [spec does not apply]", ov, expect)
